@@ -317,7 +317,64 @@ static void dkg_role(Party &P, const Group &G, const Scn &S) {
 	std::string sl = "SIJ", cl = "CIK";
 	for (size_t j = 0; j < P.n; j++) { sl += " " + hx(dkg->s_ij[j][P.me]) + "," + hx(dkg->sprime_ij[j][P.me]); cl += " " + joinp(dkg->C_ik[j]); }
 	P.say(sl); P.say(cl);
+	// what this party broadcast as complaints (from its log) and the row of pairs it computed for the others (as stored, i.e. incl. a built-in +1)
+	{ std::string mine, e = err.str(), pat = "P_" + std::to_string(P.me) + ": broadcast complaint against P_"; size_t pos = 0;
+	  while ((pos = e.find(pat, pos)) != std::string::npos) { pos += pat.size(); mine += (mine.empty() ? "" : ",") + std::to_string(strtoul(e.c_str() + pos, 0, 10)); }
+	  P.say("MINE " + (mine.empty() ? std::string("_") : mine));
+	  std::string row = "ROW"; for (size_t j = 0; j < P.n; j++) row += " " + hx(dkg->s_ij[P.me][j]) + ":" + hx(dkg->sprime_ij[P.me][j]);
+	  P.say(row); }
 	if (getenv("C15_DEBUG")) { std::string e = err.str(); for (char &c : e) if (c == '\n') c = '|'; P.say("LOG " + e); }
+}
+
+// model records for the sharing phase of GJKR-DKG: the broadcasts of all parties are rebuilt from the children's reports (own complaint
+// lists, own commitment rows, own share rows; scripted modifications applied), each honest party's view (QUAL, x_i, x'_i) is the output
+static void emit_dkg_view_records(const Scn &S, const Group &G, const RunResult &rr, const std::vector<size_t> &H,
+                                  std::map<size_t, std::vector<std::string> > &D) {
+	size_t n = S.n; if (!RECS_ON || G.qbits > 48 || PRE_SUSPECT) return;
+	std::vector<std::vector<std::string> > mine(n), row(n), cik(n);
+	for (size_t j = 0; j < n; j++) {
+		for (const std::string &l : rr.lines[j]) if (l.compare(0, 12, "SUSPECT-PRE ") == 0) return;
+		std::vector<std::string> m;
+		if (!find_line(rr.lines[j], "MINE", "", m) || m.size() != 1 || !find_line(rr.lines[j], "ROW", "", row[j]) || row[j].size() != n ||
+		    !find_line(rr.lines[j], "CIK", "", cik[j]) || cik[j].size() != n) return;
+		if (m[0] != "_") { std::istringstream is(m[0]); std::string x; while (std::getline(is, x, ',')) mine[j].push_back(x); }
+	}
+	// complaint streams (hex values separated by '.'), with injected false complaints first
+	std::vector<std::string> compl_(n), ans(n); std::vector<std::vector<size_t> > acc(n);
+	for (size_t j = 0; j < n; j++) {
+		std::string st;
+		if (S.scripts.count(j) && S.scripts.at(j).inject_value >= 0) { st += hx((unsigned long)S.scripts.at(j).inject_value) + "."; acc[j].push_back((size_t)S.scripts.at(j).inject_value); }
+		for (const std::string &x : mine[j]) { size_t w = strtoul(x.c_str(), 0, 10); st += hx(w) + "."; acc[j].push_back(w); }
+		compl_[j] = st + hx(n);
+	}
+	for (size_t j = 0; j < n; j++) {          // answers of dealer j: who, s, s' for every other party that named it (ascending), then the end marker
+		std::string st;
+		for (size_t c = 0; c < n; c++) if (c != j && std::find(acc[c].begin(), acc[c].end(), j) != acc[c].end()) {
+			size_t k = row[j][c].find(':'); st += hx(c) + "." + row[j][c].substr(0, k) + "." + row[j][c].substr(k + 1) + "."; }
+		ans[j] = st + hx(n);
+	}
+	std::string Cm, Cs, As;
+	for (size_t j = 0; j < n; j++) { Cm += (j ? ";" : "") + cik[j][j]; Cs += (j ? ";" : "") + compl_[j]; As += (j ? ";" : "") + ans[j]; }
+	// for larger n only two views per scenario (the extracted model is slow): the first honest party and the first victim of a scripted deviation
+	std::set<size_t> viewers;
+	if (n <= 4) viewers.insert(H.begin(), H.end());
+	else { viewers.insert(H[0]); for (auto &kv : S.scripts) for (size_t v : kv.second.wrong) if (viewers.size() < 2 && std::find(H.begin(), H.end(), v) != H.end()) viewers.insert(v);
+	       if (viewers.size() < 2 && H.size() > 1) viewers.insert(H[1]); }
+	for (size_t i : H) {
+		if (!viewers.count(i)) continue;
+		std::string pairs;
+		for (size_t j = 0; j < n; j++) {
+			size_t k = row[j][i].find(':'); Z sv(row[j][i].substr(0, k)), tv(row[j][i].substr(k + 1)); bool none = false;
+			if (S.scripts.count(j) && S.scripts.at(j).pair_base == 0) {
+				if (S.scripts.at(j).wrong.count(i)) { mpz_add_ui(sv.v, sv.v, 1); mpz_mod(sv.v, sv.v, G.q.v); }
+				if (S.scripts.at(j).drop.count(i)) none = true; }
+			pairs += (j ? ";" : "") + (none ? std::string("none") : sv.h() + ":" + tv.h());
+		}
+		R("dkg_view").z(G.p).z(G.q).z(G.g).z(G.h).u(n).u(S.t).u(i).t(Cm).t(pairs).t(Cs).t(As).t(D[i][1] + "|" + D[i][2] + "," + D[i][3]);
+		std::string own; for (const std::string &x : mine[i]) own += hx(strtoul(x.c_str(), 0, 10)) + "."; own += hx(n);
+		R("dkg_stream").z(G.p).z(G.q).z(G.g).z(G.h).u(n).u(i).t(Cm).t(pairs).t(own);
+	}
+	R("dkg_glob").z(G.p).z(G.q).z(G.g).z(G.h).u(n).u(S.t).t(Cm).t(Cs).t(As).t(D[H[0]][1]);
 }
 
 // checks shared by GJKR and CGJKR key generation: agreement, shares vs public values, subsets
@@ -376,6 +433,7 @@ static void dkg_scenario(const Scn &S, time_t T) {
 		for (size_t j = 0; j < n; j++) k.C.push_back(split(C[j]));
 	}
 	if (getenv("C15_DEBUG")) for (size_t i = 0; i < n; i++) for (auto &l : rr.lines[i]) fprintf(stderr, "[%s P%zu] %s\n", sn.c_str(), i, l.c_str());
+	emit_dkg_view_records(S, G, rr, H, D);
 	if (!PRE_SUSPECT) {            // the qualified sets were computed before anything suspicious happened: compare them as they are
 		for (size_t i : H) if (K[i].QUAL != K[H[0]].QUAL) {
 			CONCLUSIVE = true;
